@@ -31,7 +31,7 @@ def replay_class(ctx, behs, cls, flags, tag):
         raise Infra(f'replay {name}: {len(res)} results for {n} behaviours')
     mms = [(r, behs[r['b']]) for r in res if not r.get('ok')]
     # the hook-event stream of the same run must follow the ordering rules of KevoStore's actions (TRACE_StoreProto)
-    if conc != 'big' and os.path.exists(hooks) and not mms:
+    if conc != 'big' and not conc.startswith('edge:') and os.path.exists(hooks) and not mms:
         # validated in chunks that start at an h.reset event (the monitor's state is reset there): TLC time grows with the length
         lines = open(hooks).read().splitlines()
         chunks, cur, nb = [], [], 0
@@ -193,11 +193,41 @@ def check_C01(ctx):
     selftest_binding(ctx, behs[-20:], [])
     selftest_hooks(ctx, behs[-20:])
     ctx.traces += run_replays(ctx, 'C01', behs, ['-ballast', '24'], CLASSES, 'c01')
+    ctx.traces += edge_sweep(ctx, 'C01', behs)
     ctx.evaluations = ctx.traces
     write_evidence(ctx, 'model_checking',
                    'behaviours = API-level call sequences drawn by TLC simulation of GEN_Store (plus the committed corpus), each replayed '
                    'under 4 configuration x byte-shape classes with a read-back of every key after every call; distinct_nontrivial counts '
                    'distinct (call sequence, arguments) that contain a write and at least one of flush/compact/reopen/retire')
+
+
+def edge_sweep(ctx, prop, behs):
+    """Value lengths around the format boundaries (one log fragment = 32 KB; log buffer and table block = 64 KB): short behaviours
+    with writes, flush and reopen are replayed once per base length; value token v<n> is base+n bytes long, so the bases (step 3)
+    cover every length from boundary-66 to boundary+11.  Predictions are the specification's, as in every replay."""
+    short = [b for b in behs if 4 <= len(b) <= 14 and any(s['a'] == 'reopen' for s in b) and any(s['a'] in ('put', 'commit') for s in b)
+             and 'retire' not in [s['a'] for s in b]][:5 if ctx.quick() else 20]
+    if len(short) < 3:
+        raise Infra('size sweep: not enough short behaviours with a write and a reopen')
+    bases = [bd - 66 + 3 * i for bd in (32768, 65536) for i in range(26)]
+    classes = [(f'edge-{b}', f'edge:{b}', {'memtable_size': 1 << 22, 'max_memtables': 4, 'sync_mode': [0, 2][(b // 3) % 2], 'compact_sec': 3600}, 1.0)
+               for b in bases]
+    total = 0
+    with cf.ThreadPoolExecutor(max_workers=8) as ex:
+        results = list(ex.map(lambda cls: (cls, replay_class(ctx, short, cls, [], 'edge')), classes))
+    for cls, (mms, n) in results:
+        total += n
+        for mm, beh in mms[:1]:
+            if not reproduce(ctx, beh, cls, [], mm):
+                ctx.unreproduced.append({'class': cls[0], 'mismatch': mm})
+                continue
+            path = save_replay(ctx, 'store', {'behaviour': beh, 'class': list(cls), 'flags': [], 'mismatch': mm})
+            ctx.violations.append({'what': f"values of {cls[1][5:]}+1..3 bytes: step {mm.get('step')} {mm.get('a')}: {mm.get('kind')} "
+                                           f"key={mm.get('key')} expected {mm.get('exp')} got {mm.get('got')} {mm.get('msg', '')}", 'replay': path})
+            if len(ctx.violations) >= 5:
+                break
+    ctx.notes['size_sweep_value_lengths'] = f'{len(bases) * 3} lengths around 32768 and 65536, {len(short)} behaviours each'
+    return total
 
 
 def gated_numbering(ctx):
